@@ -67,6 +67,21 @@ Proof.
   destruct (k_run A hk c fuel s) as [[s' items] fin]. exact (proj1 Hs).
 Qed.
 
+(** Consequence for links and timers: if x and y were both executed and x precedes y in
+    (time, request order) — e.g. x was sent earlier than y on the same link with the fixed delay,
+    or x was set before y for the same instant — then y is never executed before x. *)
+Theorem C03_earlier_request_runs_first :
+  forall (F : Type) (A : ArithOps F), OrderLaws A -> forall (P H T : Type) (hk : hooks F P H T) (c : kcfg F)
+         (fuel : nat) (s : kstate F P H) (lo : option (event F P)),
+    k_inv A s -> lb_opt A (k_el s) lo ->
+    let '(_, items, _) := k_run A hk c fuel s in
+    forall p1 y p2 x p3, exec_events items = p1 ++ y :: p2 ++ x :: p3 -> ev_lt A x y = false.
+Proof.
+  intros F A OL P H T hk c fuel s lo Hinv Hlb. pose proof (k_run_exec_sorted A OL hk c fuel s lo Hinv Hlb) as Hs.
+  destruct (k_run A hk c fuel s) as [[s' items] fin]. destruct Hs as [Hs _].
+  intros p1 y p2 x p3 Heq. eapply (sorted_order_is_pop_order A OL); eassumption.
+Qed.
+
 Theorem C03_requests_numbered_in_order :
   forall (F : Type) (A : ArithOps F) (P T : Type) (l : eloop F P) (reqs : list (F * P)),
     sched_seqs (snd (sched_all A (T:=T) l reqs)) =
@@ -93,5 +108,6 @@ Print Assumptions C03_heap_contract_determines_pop.
 Print Assumptions C03_ties_by_sequence.
 Print Assumptions C03_pops_strictly_sorted.
 Print Assumptions C03_whole_runs_fifo.
+Print Assumptions C03_earlier_request_runs_first.
 Print Assumptions C03_requests_numbered_in_order.
 Print Assumptions C03_fixed_delay_is_monotone.
